@@ -79,6 +79,17 @@ class SRope:
                 raise Inconclusive("rope slice with a step")
             a = 0 if i.start is None else i.start
             b = i.stop
+            if len(self.segs) == 1 and self.segs[0][0] == "o" and (type(a) is SInt or type(b) is SInt
+                                                                   or a or b is not None):
+                # one opaque run: slicing only changes its length: max(0, min(b, n) - min(a, n))
+                from .stubs import sx_min, sx_max
+                n = self.segs[0][1]
+                lo = sx_max(0, a if (type(a) is SInt or a >= 0) else n + a)
+                hi = n if b is None else sx_max(0, b if (type(b) is SInt or b >= 0) else n + b)
+                for x in (a, b):
+                    if type(x) is SInt and x.lo < 0 and cur().decide(x.t < 0):
+                        raise Inconclusive("rope slice with a negative symbolic bound")
+                return SRope.opaque(sx_max(0, sx_min(hi, n) - sx_min(lo, n)), self.segs[0][2])
             if type(a) is SInt or type(b) is SInt:
                 raise Inconclusive("rope slice with symbolic bounds")
             if a < 0 or (b is not None and b < 0):
@@ -102,6 +113,10 @@ class SRope:
 
     def __hash__(self):
         raise Inconclusive("hash of a rope")
+
+    def __bool__(self):
+        n = self.__sxlen__()
+        return bool(n != 0) if type(n) is SInt else n != 0
 
     def __repr__(self):
         return "SRope(%s)" % ", ".join("b%d" % len(s[1]) if s[0] == "b" else "o:%s" % s[2] for s in self.segs)
